@@ -6,6 +6,7 @@ import (
 	"encoding/json"
 	"fmt"
 	"math/big"
+	"sync"
 
 	"github.com/NethermindEth/juno/blockchain/networks"
 	"github.com/NethermindEth/juno/core"
@@ -40,7 +41,31 @@ var (
 )
 
 // Sierra returns synthetic Sierra class i with a CASM; its class hash verifies under core.VerifyClassHashes.
+type sierraMemo struct {
+	cls                  *core.SierraClass
+	hash, casmV1, casmV2 felt.Felt
+}
+
+var (
+	memoMu     sync.Mutex
+	sierraMem  = map[int]*sierraMemo{}
+	cairo0Mem  = map[int]*core.DeprecatedCairoClass{}
+	cairo0Hash = map[int]felt.Felt{}
+)
+
+// Sierra is memoised: the class objects are shared and must be treated as immutable.
 func Sierra(i int) (cls *core.SierraClass, hash, casmV1, casmV2 felt.Felt) {
+	memoMu.Lock()
+	defer memoMu.Unlock()
+	if m, ok := sierraMem[i]; ok {
+		return m.cls, m.hash, m.casmV1, m.casmV2
+	}
+	cls, hash, casmV1, casmV2 = sierraBuild(i)
+	sierraMem[i] = &sierraMemo{cls, hash, casmV1, casmV2}
+	return
+}
+
+func sierraBuild(i int) (cls *core.SierraClass, hash, casmV1, casmV2 felt.Felt) {
 	u := uint64(i)
 	cls = &core.SierraClass{
 		Abi:     fmt.Sprintf(`[{"n":%d}]`, i),
@@ -74,6 +99,17 @@ func Sierra(i int) (cls *core.SierraClass, hash, casmV1, casmV2 felt.Felt) {
 // Cairo0 returns synthetic deprecated class i. Its hash is computed by juno's own function when
 // possible (not verified on the sync path anyway).
 func Cairo0(i int) (*core.DeprecatedCairoClass, felt.Felt) {
+	memoMu.Lock()
+	defer memoMu.Unlock()
+	if c, ok := cairo0Mem[i]; ok {
+		return c, cairo0Hash[i]
+	}
+	c, h := cairo0Build(i)
+	cairo0Mem[i], cairo0Hash[i] = c, h
+	return c, h
+}
+
+func cairo0Build(i int) (*core.DeprecatedCairoClass, felt.Felt) {
 	prog := fmt.Sprintf(`{"attributes":[],"builtins":["pedersen"],"compiler_version":"0.10.3","data":["0x%x","0x208b7fff7fff7ffe"],"debug_info":null,"hints":{},"identifiers":{},"main_scope":"__main__","prime":"0x800000000000011000000000000000000000000000000000000000000000001","reference_manager":{"references":[]}}`, 0x480680017fff8000+i)
 	enc, err := compression.Gzip64Encode([]byte(prog))
 	if err != nil {
